@@ -111,3 +111,15 @@ def register(claim, na):
         "shadow symbolic values through the real code + DFS path explorer with z3 feasibility + per-path z3 obligations (QF_NRA)",
         "DESIGN.md §1 E2, §2 C03",
     )
+    claim(
+        "C10", "model_checking",
+        "Symbolic execution of the measurement statistics: get_expectation_value_from_frequencies with EVERY count a symbolic integer (all 2^w keys, "
+        "w<=3, every marked subset) is proved equal to the signed count average; Measurements.get_expectation_values over all multisets of <=3 shots "
+        "(width 2; sampled width 3) and operators of <=3 Ising terms (overlapping, repeated, constant, constant last) with every coefficient a symbolic "
+        "real is proved to give coefficient x sample mean, sample means of products, and (corr - mean*mean)/N or /(N-1); counts/from_counts/"
+        "get_distribution are explored by exhaustive case split of symbolic counts 0..3. Parity tallies are ground instances.",
+        "Exact-real model of floats with 1e-9 tolerance where the library divides concrete counts in floats; numpy proxied to object arrays inside "
+        "measurements.py (listed in evidence); shot lists are concrete (len() needs an int).",
+        "shadow symbolic counts/coefficients through the real numpy code + z3 obligations per path",
+        "DESIGN.md §1 E2, §2 C10",
+    )
